@@ -201,6 +201,7 @@ fn cli() -> Command {
         )
         .arg(
             Arg::new("OUTPUT")
+                .conflicts_with("STDIN")
                 .help("Output CSS file")
         )
 
@@ -232,8 +233,18 @@ fn main() -> std::io::Result<()> {
         .unicode_error_messages(!matches.get_flag("NO_UNICODE"))
         .allows_charset(!matches.get_flag("NO_CHARSET"));
 
+    // with `--stdin` there is no input file, so the only positional argument is the output
+    let (input, output) = if matches.get_flag("STDIN") {
+        (None, matches.get_one::<String>("INPUT"))
+    } else {
+        (
+            matches.get_one::<String>("INPUT"),
+            matches.get_one::<String>("OUTPUT"),
+        )
+    };
+
     let (mut stdout_write, mut file_write);
-    let buf_out: &mut dyn Write = if let Some(path) = matches.get_one::<String>("OUTPUT") {
+    let buf_out: &mut dyn Write = if let Some(path) = output {
         file_write = OpenOptions::new()
             .create(true)
             .write(true)
@@ -246,7 +257,7 @@ fn main() -> std::io::Result<()> {
     };
 
     buf_out.write_all(
-        if let Some(name) = matches.get_one::<String>("INPUT") {
+        if let Some(name) = input {
             from_path(name, options)
         } else if matches.get_flag("STDIN") {
             from_string(
